@@ -13,6 +13,7 @@ OBLIGATIONS = [
     "PgmVerif.C10_cache_transparent", "PgmVerif.C10_cache_bounded", "PgmVerif.C10_counts_row_perm",
     "PgmVerif.C10_unobserved_config_k2", "PgmVerif.C10_unobserved_config_bd", "PgmVerif.C10_rising_gamma",
     "PgmVerif.C10_bdeu_covered_edge", "PgmVerif.C10_loglik_covered_edge", "PgmVerif.C10_nparams_covered_edge",
+    "PgmVerif.C10_defaults_tie",
 ]
 PARTIAL = ["score equivalence is proved for one covered-edge reversal (BDeu product, maximised likelihood and parameter count are symmetric for "
            "every count table); that any two Markov-equivalent DAGs are joined by such reversals is Chickering's theorem, not proved here; the "
